@@ -1,5 +1,6 @@
 SPECIFICATION TraceSpec
 CONSTANTS AsCoded = TRUE
+          Fixed = FALSE
           Mode = "http"
           Messages <- NoMessages
           MaxMsgs = 1
